@@ -122,7 +122,7 @@ pub fn qt_record(case: &Value, n: u64) -> Value {
                    "comm": dj(&dec_of(&t["comm"])), "net": dj(&dec_of(&t["net"])), "acct": t["acct"], "num": t["num"], "day": r["day"], "sday": r["day"].as_i64().unwrap() + 2})
         })
         .collect();
-    let mut rec = json!({"id": format!("qt-{}", n), "layout": lay, "floatCells": float_cells, "rows": inrows});
+    let mut rec = json!({"id": format!("qt-{}", n), "kind": "sheet", "layout": lay, "floatCells": float_cells, "rows": inrows});
     match res {
         Ok(Ok(mut txs)) => {
             txs.sort();
@@ -229,4 +229,86 @@ pub fn gen_qt_case(seed: u64, k: u64) -> Value {
         }
     }
     json!({"id": format!("qtgen-{}-{}", seed, k), "layout": rng.gen_range(0..5), "rows": rows})
+}
+
+// ---------------------------------------------------------------------------------------------
+// process level: a real .xlsx through the tx-export-convert binary, with option combinations
+// ---------------------------------------------------------------------------------------------
+pub fn write_xlsx(rows: &[Value], lay: u64, float_cells: bool, path: &std::path::Path) -> Result<(), String> {
+    let rg = build_range(rows, lay, float_cells);
+    let mut wb = rust_xlsxwriter::Workbook::new();
+    let sheet = wb.add_worksheet();
+    for (ri, row) in rg.rows().enumerate() {
+        for (ci, cell) in row.iter().enumerate() {
+            let (r, c) = (ri as u32, ci as u16);
+            match cell {
+                DataType::String(s) => {
+                    sheet.write(r, c, s.as_str()).map_err(|e| e.to_string())?;
+                }
+                DataType::Float(f) => {
+                    sheet.write(r, c, *f).map_err(|e| e.to_string())?;
+                }
+                DataType::Int(i) => {
+                    sheet.write(r, c, *i as f64).map_err(|e| e.to_string())?;
+                }
+                _ => {}
+            }
+        }
+    }
+    wb.save(path).map_err(|e| e.to_string())
+}
+
+fn parse_out_csv(text: &str) -> Vec<Value> {
+    let mut rd = csv::ReaderBuilder::new().has_headers(true).from_reader(text.as_bytes());
+    let hdr: Vec<String> = rd.headers().map(|h| h.iter().map(|s| s.to_string()).collect()).unwrap_or_default();
+    let col = |name: &str| hdr.iter().position(|h| h == name);
+    let mut out = Vec::new();
+    for rec in rd.records().flatten() {
+        let get = |name: &str| col(name).and_then(|i| rec.get(i)).unwrap_or("").to_string();
+        let d = |s: String| dj(&s.parse::<Decimal>().unwrap_or_default());
+        out.push(json!({"sec": get("security"), "act": get("action"), "q": d(get("shares")), "p": d(get("amount/share")), "c": d(get("commission")),
+                        "cur": get("currency"), "hasRate": !get("exchange rate").is_empty(), "rate": d(get("exchange rate")),
+                        "af": affiliate_id(&get("affiliate")).0, "td": days_in_text(&get("trade date")).first().cloned().unwrap_or(0),
+                        "sd": days_in_text(&get("settlement date")).first().cloned().unwrap_or(0), "margin": get("memo").contains(" Margin ")}));
+    }
+    out
+}
+
+pub fn qt_opts_record(case: &Value, n: u64, scratch: &std::path::Path) -> Value {
+    let rows = case["rows"].as_array().unwrap().clone();
+    let lay = case["layout"].as_u64().unwrap_or(0);
+    let dir = scratch.join(format!("qt_{}", n));
+    let _ = std::fs::remove_dir_all(&dir);
+    std::fs::create_dir_all(&dir).unwrap();
+    let x = dir.join("export.xlsx");
+    let mut rec = json!({"id": format!("qtopt-{}", n), "layout": lay, "kind": "opts", "rows": []});
+    if let Err(e) = write_xlsx(&rows, lay, n % 2 == 0, &x) {
+        rec["status"] = json!("skipped");
+        rec["msg"] = json!(e);
+        rec["variants"] = json!([]);
+        return rec;
+    }
+    let exe = crate::proc::exe_dir().join("txconv-app");
+    let variants: Vec<(&str, Vec<String>)> = vec![
+        ("base", vec!["--account".into(), ".".into()]),
+        ("no-fx", vec!["--account".into(), ".".into(), "--no-fx".into()]),
+        ("security", vec!["--account".into(), ".".into(), "--security".into(), "^FOO$".into()]),
+        ("account", vec!["--account".into(), "Margin".into()]),
+        ("no-sort", vec!["--account".into(), ".".into(), "--no-sort".into()]),
+        ("usd-rate", vec!["--account".into(), ".".into(), "--usd-exchange-rate".into(), "1.3125".into()]),
+    ];
+    let mut vs = Vec::new();
+    for (name, extra) in variants {
+        let mut args = vec![x.to_string_lossy().to_string()];
+        args.extend(extra);
+        let p = crate::proc::run_proc(&exe, &args, &dir, None, None, 60);
+        let stderr = String::from_utf8_lossy(&p.stderr).to_string();
+        vs.push(json!({"opt": name, "exit": p.code, "panicked": stderr.contains("panicked at"), "stderr": clean(&stderr.chars().take(200).collect::<String>()),
+                       "rows": parse_out_csv(&String::from_utf8_lossy(&p.stdout))}));
+    }
+    let _ = std::fs::remove_dir_all(&dir);
+    rec["status"] = json!("ok");
+    rec["msg"] = json!("");
+    rec["variants"] = json!(vs);
+    rec
 }
